@@ -352,3 +352,16 @@ def tall_path(rnd, h, leaves=(('ap', 'p'), ('ap', 'q'), ('not', ('ap', 'p'))), b
         leaf = rnd.choice(neutral[op]) if rnd.random() < 0.96 else rnd.choice(leaves)
         g = (op, g, leaf) if rnd.random() < 0.8 else (op, leaf, g)
     return g
+
+
+def recurrence_formulas(rnd, leaves=(('ap', 'p'), ('ap', 'q'), ('not', ('ap', 'p')))):
+    """path formulas of the recurrence / persistence kind (three or four nested or conjoined temporal operators): fairness
+    specifications, G F over a binary operator, F G over an until, response"""
+    a, b, c = rnd.choice(leaves), rnd.choice(leaves), rnd.choice(leaves)
+    GF = lambda x: ('G', ('F', x))
+    FG = lambda x: ('F', ('G', x))
+    return rnd.choice([
+        ('and', GF(a), GF(b)), ('imp', GF(a), GF(b)), ('or', FG(a), GF(b)), ('and', GF(a), GF(b), GF(c)), ('imp', ('and', GF(a), GF(b)), GF(c)),
+        GF(('R', a, b)), GF(('U', a, b)), FG(('U', a, b)), FG(('R', a, b)), GF(('not', ('U', a, b))), ('G', ('imp', a, ('F', b))),
+        ('G', ('F', ('G', a))), ('F', ('G', ('F', a))), GF(('and', a, ('X', b))), ('U', GF(a), b), ('R', a, FG(b)),
+        ('and', GF(a), FG(b)), ('not', ('and', GF(a), GF(b)))])
